@@ -1,10 +1,339 @@
 import Driver.Util
+import MpcVerif.Model.Sha2pc
+
+/-!
+Line-protocol driver of property C18 (model side of the correspondence).
+
+The driver is *stateful*: `base` lines store a byte string in a named slot,
+`circ` stores the per-gate table-label counts of the embedded circuit; `dec`
+lines apply an edit script to a slot, check length and FNV-1a of the edited
+bytes against the values the harness computed, run the model decoder and
+print the canonical outcome line.
+
+  circ <digits>                          one digit 0..3 per gate -> `circ n=<gates> sum=<labels> r3len=<n>`
+  curve <name> <p-hex> <b-hex> <bytelen> -> `curve ok` when the built-in constants agree
+  base <slot> <hex>                      -> `base <len>:<fnv>`
+  dec <kind> <curve> <slot> <edits> <len>:<fnv>
+        kind in R1 R2 R3 GS ES            -> `ok <dump> canon=<0|1> re=<len>:<fnv>` | `err` | `panic`
+  encR1 <curve> <sid> <cn-hex|-> <ax> <ay>              -> `ok <hex>` | `err`
+  encGS <curve> <sid> <cn-hex|-> <sc> <ax> <ay> <ix> <iy> -> `ok <hex>` | `err`
+  cfull <numWires> <nIn> <nOut> <gates>  -> stores the circuit: `cfull gates=<n> wf=<0|1> outdef=<0|1>`
+  ceval <a-hex> <b-hex>                  -> `<digest-hex>` (Lean `Circuit.compute` on the stored circuit)
+
+edits: `-` or a comma separated list, applied left to right:
+  t<N> truncate to N bytes | a<hex> append | x<off>.<hh> xor one byte |
+  w<off>.<hex> overwrite | i<off>.<hex> insert | d<off>.<len> delete
+-/
 
 namespace Drv.C18
+open Mpc Mpc.Sha2pc Drv
 
-/-- Line-protocol handler of property C18 (stub). -/
-def handle (_args : List String) : String := "bad-op"
+/-! ### NIST curves (concrete `Curve.decompress`) -/
+
+def powMod (b e m : Nat) : Nat := Id.run do
+  let mut r := 1 % m
+  let mut base := b % m
+  let mut e := e
+  for _ in [0:e.log2 + 1] do
+    if e % 2 = 1 then r := r * base % m
+    base := base * base % m
+    e := e / 2
+  return r
+
+/-- Square root modulo a prime `p` (Tonelli-Shanks); `none` for non-residues. -/
+def sqrtMod (a p : Nat) : Option Nat := Id.run do
+  let a := a % p
+  if a = 0 then return some 0
+  if powMod a ((p - 1) / 2) p ≠ 1 then return none
+  if p % 4 = 3 then return some (powMod a ((p + 1) / 4) p)
+  -- p - 1 = q 2^s
+  let mut q := p - 1
+  let mut s := 0
+  for _ in [0:p.log2 + 1] do
+    if q % 2 = 0 then
+      q := q / 2
+      s := s + 1
+  -- a non-residue
+  let mut z := 2
+  for _ in [0:1000] do
+    if powMod z ((p - 1) / 2) p = 1 then z := z + 1
+  let mut m := s
+  let mut c := powMod z q p
+  let mut t := powMod a q p
+  let mut r := powMod a ((q + 1) / 2) p
+  for _ in [0:s + 1] do
+    if t ≠ 1 then
+      -- least i with t^(2^i) = 1
+      let mut i := 0
+      let mut tt := t
+      for _ in [0:m] do
+        if tt ≠ 1 then
+          tt := tt * tt % p
+          i := i + 1
+      let bb := powMod c (2 ^ (m - i - 1)) p
+      m := i
+      c := bb * bb % p
+      t := t * c % p
+      r := r * bb % p
+  return some r
+
+structure NistParams where
+  name : String
+  p : Nat
+  b : Nat
+  byteLen : Nat
+
+def p224 : NistParams :=
+  { name := "P-224", p := 2 ^ 224 - 2 ^ 96 + 1,
+    b := 0xb4050a850c04b3abf54132565044b0b7d7bfd8ba270b39432355ffb4, byteLen := 28 }
+def p256 : NistParams :=
+  { name := "P-256", p := 2 ^ 256 - 2 ^ 224 + 2 ^ 192 + 2 ^ 96 - 1,
+    b := 0x5ac635d8aa3a93e7b3ebbd55769886bc651d06b0cc53b0f63bce3c3e27d2604b, byteLen := 32 }
+def p384 : NistParams :=
+  { name := "P-384", p := 2 ^ 384 - 2 ^ 128 - 2 ^ 96 + 2 ^ 32 - 1,
+    b := 0xb3312fa7e23ee7e4988e056be3f82d19181d9c6efe8141120314088f5013875ac656398d8a2ed19d2a85c8edd3ec2aef,
+    byteLen := 48 }
+def p521 : NistParams :=
+  { name := "P-521", p := 2 ^ 521 - 1,
+    b := 0x051953eb9618e1c9a1f929a21a0b68540eea2da725b99b315f3b8b489918ef109e156193951ec7e937b1652c0bd3bb1bf073573df883d2c34f1ef451fd46b503f00,
+    byteLen := 66 }
+
+def nistOf (name : String) : Option NistParams :=
+  [p224, p256, p384, p521].find? (·.name == name)
+
+/-- `elliptic.UnmarshalCompressed` for y² = x³ − 3x + b over GF(p). -/
+def decompressNist (P : NistParams) (x : Nat) (odd : Bool) : Option Nat :=
+  if P.p ≤ x then none
+  else
+    let rhs := (x * x % P.p * x + (P.p - 3) * x + P.b) % P.p
+    match sqrtMod rhs P.p with
+    | none => none
+    | some y =>
+      if y * y % P.p ≠ rhs then none
+      else if y.testBit 0 == odd then some y else some ((P.p - y) % P.p)
+
+def curveOf (P : NistParams) : Curve :=
+  { name := P.name.toUTF8.toList, byteLen := P.byteLen, decompress := decompressNist P }
+
+/-! ### helpers -/
+
+def fnv (b : ByteArray) : UInt64 :=
+  b.foldl (fun h x => (h ^^^ x.toUInt64) * 0x100000001b3) 0xcbf29ce484222325
+
+def hexNat (n : Nat) : String := String.ofList (Nat.toDigits 16 n)
+
+def natOfHex (s : String) : Option Nat :=
+  s.toList.foldlM (fun acc ch => (Aes.hexVal ch).map fun v => acc * 16 + v) 0
+
+def bytesHex (b : Bytes) : String := Aes.hexOfBytes (ByteArray.mk b.toArray)
+
+def tagOf (b : ByteArray) : String := s!"{b.size}:{hexNat (fnv b).toNat}"
+
+def hexArg (s : String) : Option ByteArray := if s == "-" then some ByteArray.empty else Aes.bytesOfHex s
+
+/-- One edit of the mutation script. -/
+def applyEdit (b : ByteArray) (e : String) : Option ByteArray :=
+  match e.toList with
+  | [] => none
+  | k :: restL =>
+    let rest := String.ofList restL
+    match k with
+    | 't' => do
+      let n ← rest.toNat?
+      if n ≤ b.size then some (b.extract 0 n) else none
+    | 'a' => do
+      let h ← hexArg rest
+      some (b ++ h)
+    | 'x' =>
+      match rest.splitOn "." with
+      | [o, h] => do
+        let o ← o.toNat?
+        let h ← hexArg h
+        if h.size = 1 ∧ o < b.size then some (b.set! o (b.get! o ^^^ h.get! 0)) else none
+      | _ => none
+    | 'w' =>
+      match rest.splitOn "." with
+      | [o, h] => do
+        let o ← o.toNat?
+        let h ← hexArg h
+        if o + h.size ≤ b.size then some (b.extract 0 o ++ h ++ b.extract (o + h.size) b.size) else none
+      | _ => none
+    | 'i' =>
+      match rest.splitOn "." with
+      | [o, h] => do
+        let o ← o.toNat?
+        let h ← hexArg h
+        if o ≤ b.size then some (b.extract 0 o ++ h ++ b.extract o b.size) else none
+      | _ => none
+    | 'd' =>
+      match rest.splitOn "." with
+      | [o, l] => do
+        let o ← o.toNat?
+        let l ← l.toNat?
+        if o + l ≤ b.size then some (b.extract 0 o ++ b.extract (o + l) b.size) else none
+      | _ => none
+    | _ => none
+
+def applyEdits (b : ByteArray) (s : String) : Option ByteArray :=
+  if s == "-" then some b else (s.splitOn ",").foldlM applyEdit b
+
+/-! ### canonical dumps -/
+
+def labelHex (l : Sha2pc.Label) : String := hex128 l
+
+def dumpR1 (m : Round1) : String :=
+  s!"sid={m.sid};cn={bytesHex m.curveName};ax={hexNat m.ax};ay={hexNat m.ay}"
+
+def dumpR2 (m : Round2) : String :=
+  s!"sid={m.sid};cn={bytesHex m.curveName};pts=" ++
+    ",".intercalate (m.choices.map fun p => hexNat p.x ++ ":" ++ hexNat p.y)
+
+def dumpR3 (m : Round3) : String :=
+  s!"sid={m.sid};key={bytesHex m.key};t=" ++
+    ",".intercalate (m.tables.map fun row => String.join (row.map labelHex)) ++
+    ";in=" ++ String.join (m.inputs.map labelHex) ++
+    ";h=" ++ ",".intercalate (m.hints.map fun p => labelHex p.1 ++ labelHex p.2) ++
+    ";ct=" ++ ",".intercalate (m.cts.map fun p => labelHex p.1 ++ labelHex p.2)
+
+def dumpGS (m : GarblerSession) : String :=
+  s!"sid={m.sid};cn={bytesHex m.curveName};sc={hexNat m.scalar};ax={hexNat m.ax};ay={hexNat m.ay};" ++
+    s!"ix={hexNat m.ainvx};iy={hexNat m.ainvy}"
+
+def dumpES (m : EvaluatorSession) : String :=
+  s!"sid={m.sid};cn={bytesHex m.curveName};ax={hexNat m.ax};ay={hexNat m.ay};sc=" ++
+    ",".intercalate (m.scalars.map hexNat) ++ ";bits=" ++ bitsStr m.bits
+
+def shortOrHash (d : String) : String :=
+  if d.length ≤ 400 then d else "h=" ++ tagOf d.toUTF8
+
+def outcome {α : Type} (input : ByteArray) (r : Res α) (dump : α → String) (reenc : α → Res Bytes) : String :=
+  match r with
+  | .error => "err"
+  | .panic => "panic"
+  | .ok m =>
+    let d := shortOrHash (dump m)
+    match reenc m with
+    | .ok b =>
+      let ba := ByteArray.mk b.toArray
+      let canon := if ba.data == input.data then "1" else "0"
+      s!"ok {d} canon={canon} re={tagOf ba}"
+    | .error => s!"ok {d} canon=0 re=err"
+    | .panic => s!"ok {d} canon=0 re=panic"
+
+/-! ### state and dispatch -/
+
+structure State where
+  slots : List (String × ByteArray) := []
+  counts : List Nat := []
+  circ : Option Circuit := none
+
+def State.slot (st : State) (name : String) : Option ByteArray :=
+  (st.slots.find? (·.1 == name)).map (·.2)
+
+def State.setSlot (st : State) (name : String) (b : ByteArray) : State :=
+  { st with slots := (name, b) :: st.slots.filter (·.1 != name) }
+
+def countOfDigit (ch : Char) : Option Nat :=
+  match ch with
+  | '0' => some 0 | '1' => some 1 | '2' => some 2 | '3' => some 3 | _ => none
+
+/-- Executable (array based) re-statement of `Circuit.WF` and
+`Circuit.outputsDefined` for the 100k-gate circuit; `Circuit.WF` itself is
+quadratic (a closure per gate). -/
+def wfFast (c : Circuit) : Bool × Bool := Id.run do
+  let mut d : Array Bool := (Array.range c.numWires).map fun i => decide (i < c.nIn)
+  let mut ok := decide (c.nIn ≤ c.numWires) && decide (c.nOut ≤ c.numWires)
+  for g in c.gates do
+    let i0 := d.getD g.in0 false && decide (g.in0 < c.numWires)
+    let i1 := !g.op.binary || (d.getD g.in1 false && decide (g.in1 < c.numWires))
+    ok := ok && i0 && i1 && decide (g.out < c.numWires) && decide (c.nIn ≤ g.out)
+    d := d.setIfInBounds g.out true
+  let outdef := (List.range c.nOut).all fun i => d.getD (c.numWires - c.nOut + i) false
+  return (ok, outdef)
+
+def handle (st : State) (cmd : String) (args : List String) : State × String :=
+  match cmd, args with
+  | "circ", [digits] =>
+    match digits.toList.mapM countOfDigit with
+    | some cs => ({ st with counts := cs }, s!"circ n={cs.length} sum={cs.sum} r3len={round3Len cs}")
+    | none => (st, "bad-op")
+  | "curve", [name, p, b, bl] =>
+    match nistOf name, natOfHex p, natOfHex b, bl.toNat? with
+    | some P, some p, some b, some bl =>
+      (st, if P.p = p ∧ P.b = b ∧ P.byteLen = bl then "curve ok" else "curve MISMATCH")
+    | _, _, _, _ => (st, "bad-op")
+  | "base", [slot, hex] =>
+    match hexArg hex with
+    | some b => (st.setSlot slot b, "base " ++ tagOf b)
+    | none => (st, "bad-op")
+  | "dec", [kind, curve, slot, edits, tag] =>
+    match nistOf curve, st.slot slot with
+    | some P, some base =>
+      match applyEdits base edits with
+      | none => (st, "bad-edit")
+      | some input =>
+        if tagOf input != tag then (st, "bad-mut " ++ tagOf input)
+        else
+          let c := curveOf P
+          let data := input.toList
+          let res :=
+            match kind with
+            | "R1" => outcome input (decodeRound1 c data) dumpR1 (encodeRound1 c)
+            | "R2" => outcome input (decodeRound2 c data) dumpR2 (encodeRound2 c)
+            | "R3" => outcome input (decodeRound3 st.counts data) dumpR3 (encodeRound3 st.counts)
+            | "GS" => outcome input (decodeGarblerSession c data) dumpGS (encodeGarblerSession c)
+            | "ES" => outcome input (decodeEvaluatorSession c data) dumpES (encodeEvaluatorSession c)
+            | _ => "bad-op"
+          (st, res)
+    | _, _ => (st, "bad-op")
+  | "encR1", [curve, sid, cn, ax, ay] =>
+    match nistOf curve, sid.toNat?, hexArg cn, natOfHex ax, natOfHex ay with
+    | some P, some sid, some cn, some ax, some ay =>
+      match encodeRound1 (curveOf P) { sid := sid, curveName := cn.toList, ax := ax, ay := ay } with
+      | .ok b => (st, "ok " ++ bytesHex b)
+      | .error => (st, "err")
+      | .panic => (st, "panic")
+    | _, _, _, _, _ => (st, "bad-op")
+  | "encGS", [curve, sid, cn, sc, ax, ay, ix, iy] =>
+    match nistOf curve, sid.toNat?, hexArg cn, natOfHex sc, natOfHex ax, natOfHex ay, natOfHex ix, natOfHex iy with
+    | some P, some sid, some cn, some sc, some ax, some ay, some ix, some iy =>
+      match encodeGarblerSession (curveOf P)
+          { sid := sid, curveName := cn.toList, scalar := sc, ax := ax, ay := ay, ainvx := ix, ainvy := iy } with
+      | .ok b => (st, "ok " ++ bytesHex b)
+      | .error => (st, "err")
+      | .panic => (st, "panic")
+    | _, _, _, _, _, _, _, _ => (st, "bad-op")
+  | "cfull", [nw, nin, nout, gates] =>
+    match parseCircuit nw nin nout gates with
+    | some c =>
+      let (wf, od) := wfFast c
+      ({ st with circ := some c, counts := c.gates.map (·.op.rows) },
+        s!"cfull gates={c.gates.length} wf={if wf then 1 else 0} outdef={if od then 1 else 0}")
+    | none => (st, "bad-op")
+  | "ceval", [a, b] =>
+    match st.circ, hexArg a, hexArg b with
+    | some c, some a, some b =>
+      let x := bytesToBits a.toList ++ bytesToBits b.toList
+      (st, bytesHex (bitsToBytes (c.compute x)))
+    | _, _, _ => (st, "bad-op")
+  | _, _ => (st, "bad-op")
+
+partial def loop (st : State) (h : IO.FS.Stream) (out : IO.FS.Stream) : IO Unit := do
+  let line ← h.getLine
+  if line.isEmpty then return ()
+  let line := if line.endsWith "\n" then (line.dropEnd 1).toString else line
+  match splitWs line with
+  | [] =>
+    out.putStrLn "bad-op"
+    loop st h out
+  | cmd :: args =>
+    let (st', res) := handle st cmd args
+    out.putStrLn res
+    loop st' h out
 
 end Drv.C18
 
-def main : IO Unit := Drv.mainLoop Drv.C18.handle
+def main : IO Unit := do
+  let stdin ← IO.getStdin
+  let stdout ← IO.getStdout
+  Drv.C18.loop {} stdin stdout
